@@ -116,8 +116,9 @@ PlacedOK(nshards) ==
   \* every point went to exactly one shard; the points of a failed range to none
   /\ \A p \in 0..E.n - 1 : Clean(p) =>
         IF InFailed(p) THEN Len(E.w[p + 1]) = 0 ELSE Len(E.w[p + 1]) = 1 /\ E.w[p + 1][1] \in 1..nshards
-  \* a shard holds a contiguous range of the id-sorted batch
-  /\ \A p, q \in 0..E.n - 1 : (p < q /\ Placed(p) /\ Placed(q) /\ E.w[p + 1] = E.w[q + 1]) =>
+  \* a shard holds a contiguous range of the id-sorted batch (cubic: judged on batches of up to 200 points; the
+  \* thousand-point batches of the "big" histories are there for the count identity and the failed ranges)
+  /\ E.n <= 200 => \A p, q \in 0..E.n - 1 : (p < q /\ Placed(p) /\ Placed(q) /\ E.w[p + 1] = E.w[q + 1]) =>
         \A r \in p + 1..q - 1 : Placed(r) => E.w[r + 1] = E.w[p + 1]
 
 InsertOK(before, after) ==
